@@ -82,16 +82,16 @@ theorem findRoot_fresh (m : Nat) (par : Nat → Int) (v : Nat) (h : par v = -1) 
     findRoot m par v = (-1, par, false) := by
   unfold findRoot; simp [h]
 
-/-- `find_root(v)`: returns the root; the compressed array has the same trees (same `rep`),
-    the same fresh stabilizers and the same roots -/
-theorem findRoot_spec {m : Nat} {par : Nat → Int} {rep d : Nat → Nat} (I : UFInv m par rep d)
-    {v : Nat} (hv : par v ≠ -1) :
-    ∃ par', findRoot m par v = ((rep v : Int), par', false) ∧ UFInv m par' rep d ∧
-      (∀ i, par' i = -1 ↔ par i = -1) ∧ (∀ i, par' i = (i : Int) ↔ par i = (i : Int)) := by
-  have hdv : d v < m + 1 := by have := I.d_bound v; omega
-  obtain ⟨path, hrun, _, hpath⟩ := findLoop_spec I (m + 1) v [] hv hdv
-  have hrr := I.rep_root v hv
-  have hfresh : ∀ i, (if i ∈ path then (rep v : Int) else par i) = -1 ↔ par i = -1 := by
+/-- path compression: pointing non-root members of one tree directly at its root -/
+theorem compress_path {m : Nat} {par : Nat → Int} {rep d : Nat → Nat} (I : UFInv m par rep d)
+    (r : Nat) (hr : par r = (r : Int)) (path : List Nat)
+    (hpath : ∀ x, x ∈ path → par x ≠ -1 ∧ rep x = r ∧ par x ≠ (x : Int) ∧ d r < d x) :
+    UFInv m (fun i => if i ∈ path then (r : Int) else par i) rep d ∧
+      (∀ i, (if i ∈ path then (r : Int) else par i) = -1 ↔ par i = -1) ∧
+      (∀ i, (if i ∈ path then (r : Int) else par i) = (i : Int) ↔ par i = (i : Int)) := by
+  have hrm : r < m := I.lt (by rw [hr]; omega)
+  have hrr : rep r = r := I.root_rep r hr
+  have hfresh : ∀ i, (if i ∈ path then (r : Int) else par i) = -1 ↔ par i = -1 := by
     intro i
     by_cases hi : i ∈ path
     · simp only [hi, if_true]
@@ -99,67 +99,83 @@ theorem findRoot_spec {m : Nat} {par : Nat → Int} {rep d : Nat → Nat} (I : U
       · intro h; omega
       · intro h; exact absurd h (hpath i hi).1
     · simp [hi]
-  have hroots : ∀ i, (if i ∈ path then (rep v : Int) else par i) = (i : Int) ↔ par i = (i : Int) := by
+  have hroots : ∀ i, (if i ∈ path then (r : Int) else par i) = (i : Int) ↔ par i = (i : Int) := by
     intro i
     by_cases hi : i ∈ path
     · simp only [hi, if_true]
       constructor
       · intro h
-        have : rep v = i := by omega
+        have : r = i := by omega
         rw [← this] at hi
-        exact absurd hrr (hpath _ hi).2.2.1
+        exact absurd hr (hpath _ hi).2.2.1
       · intro h; exact absurd h (hpath i hi).2.2.1
     · simp [hi]
-  refine ⟨fun i => if i ∈ path then (rep v : Int) else par i, ?_, ?_, hfresh, hroots⟩
+  refine ⟨⟨?_, ?_, ?_, ?_, ?_, ?_, ?_, ?_, ?_, ?_⟩, hfresh, hroots⟩
+  · intro s
+    by_cases hs : s ∈ path
+    · exact Or.inr ⟨r, hrm, by simp [hs]⟩
+    · simp only [hs, if_false]; exact I.rng s
+  · intro s hs
+    rw [hfresh]; exact I.out s hs
+  · intro s hs
+    have hs' : par s ≠ -1 := fun h => hs ((hfresh s).mpr h)
+    have hnot : rep s ∉ path := fun h => (hpath _ h).2.2.1 (I.rep_root s hs')
+    simp only [hnot, if_false]; exact I.rep_root s hs'
+  · intro s p hsp
+    by_cases hs : s ∈ path
+    · simp only [hs, if_true] at hsp
+      have : p = r := by omega
+      subst this
+      rw [hrr, (hpath s hs).2.1]
+    · simp only [hs, if_false] at hsp; exact I.rep_par s p hsp
+  · intro s hs
+    exact I.root_rep s ((hroots s).mp hs)
+  · intro s p hsp
+    rw [Ne, hfresh]
+    by_cases hs : s ∈ path
+    · simp only [hs, if_true] at hsp
+      have : p = r := by omega
+      subst this
+      rw [hr]; omega
+    · simp only [hs, if_false] at hsp; exact I.par_live s p hsp
+  · intro s p hsp hne
+    by_cases hs : s ∈ path
+    · simp only [hs, if_true] at hsp
+      have : p = r := by omega
+      subst this
+      exact (hpath s hs).2.2.2
+    · simp only [hs, if_false] at hsp; exact I.d_par s p hsp hne
+  · intro s hs; exact I.d_root s ((hroots s).mp hs)
+  · intro s hs; exact I.d_fresh s ((hfresh s).mp hs)
+  · intro s
+    have : cnt m (freeOrRoot fun i => if i ∈ path then (r : Int) else par i) =
+        cnt m (freeOrRoot par) := by
+      apply cnt_congr
+      intro i _
+      unfold freeOrRoot
+      have h1 := hfresh i
+      have h2 := hroots i
+      by_cases a : par i = -1 <;> by_cases b : par i = (i : Int) <;> simp_all
+    rw [this]; exact I.d_bound s
+
+/-- `find_root(v)`: returns the root; the compressed array has the same trees (same `rep`),
+    the same fresh stabilizers and the same roots -/
+theorem findRoot_spec {m : Nat} {par : Nat → Int} {rep d : Nat → Nat} (I : UFInv m par rep d)
+    {v : Nat} (hv : par v ≠ -1) :
+    ∃ par', findRoot m par v = ((rep v : Int), par', false) ∧ UFInv m par' rep d ∧
+      (∀ i, par' i = -1 ↔ par i = -1) ∧ (∀ i, par' i = (i : Int) ↔ par i = (i : Int)) ∧
+      (∀ i, par i = (rep i : Int) → par' i = (rep i : Int)) := by
+  have hdv : d v < m + 1 := by have := I.d_bound v; omega
+  obtain ⟨path, hrun, _, hpath⟩ := findLoop_spec I (m + 1) v [] hv hdv
+  have hrr := I.rep_root v hv
+  obtain ⟨U', hf, hr⟩ := compress_path I (rep v) hrr path hpath
+  refine ⟨fun i => if i ∈ path then (rep v : Int) else par i, ?_, U', hf, hr, ?_⟩
   · unfold findRoot
     simp only [hv, if_false, hrun, List.nil_append]
-  · refine ⟨?_, ?_, ?_, ?_, ?_, ?_, ?_, ?_, ?_, ?_⟩
-    · intro s
-      by_cases hs : s ∈ path
-      · exact Or.inr ⟨rep v, I.rep_lt hv, by simp [hs]⟩
-      · simp only [hs, if_false]; exact I.rng s
-    · intro s hs
-      rw [hfresh]; exact I.out s hs
-    · intro s hs
-      have hs' : par s ≠ -1 := fun h => hs ((hfresh s).mpr h)
-      have hnot : rep s ∉ path := fun h => (hpath _ h).2.2.1 (I.rep_root s hs')
-      simp only [hnot, if_false]; exact I.rep_root s hs'
-    · intro s p hsp
-      by_cases hs : s ∈ path
-      · simp only [hs, if_true] at hsp
-        have : p = rep v := by omega
-        subst this
-        rw [I.rep_rep hv, (hpath s hs).2.1]
-      · simp only [hs, if_false] at hsp; exact I.rep_par s p hsp
-    · intro s hs
-      exact I.root_rep s ((hroots s).mp hs)
-    · intro s p hsp
-      rw [Ne, hfresh]
-      by_cases hs : s ∈ path
-      · simp only [hs, if_true] at hsp
-        have : p = rep v := by omega
-        subst this
-        rw [hrr]; omega
-      · simp only [hs, if_false] at hsp; exact I.par_live s p hsp
-    · intro s p hsp hne
-      by_cases hs : s ∈ path
-      · simp only [hs, if_true] at hsp
-        have : p = rep v := by omega
-        subst this
-        exact (hpath s hs).2.2.2
-      · simp only [hs, if_false] at hsp; exact I.d_par s p hsp hne
-    · intro s hs; exact I.d_root s ((hroots s).mp hs)
-    · intro s hs; exact I.d_fresh s ((hfresh s).mp hs)
-    · intro s
-      have : cnt m (freeOrRoot fun i => if i ∈ path then (rep v : Int) else par i) =
-          cnt m (freeOrRoot par) := by
-        apply cnt_congr
-        intro i _
-        unfold freeOrRoot
-        have h1 := hfresh i
-        have h2 := hroots i
-        by_cases a : par i = -1 <;> by_cases b : par i = (i : Int) <;> simp_all
-      rw [this]; exact I.d_bound s
+  · intro i hi
+    by_cases hip : i ∈ path
+    · simp only [hip, if_true]; rw [(hpath i hip).2.1]
+    · simp only [hip, if_false]; exact hi
 
 /-- `_s_parents[x] = b` for a root or fresh `x ≠ b` under a root `b` -/
 theorem link_spec {m : Nat} {sPar : Nat → Int} {rep d : Nat → Nat} (I : UFInv m sPar rep d)
